@@ -1,3 +1,4 @@
+\* thorough: every signer fault, two targets, a head change
 SPECIFICATION Spec
 CONSTANTS
   SlotsPerEpoch = 2
@@ -5,7 +6,7 @@ CONSTANTS
   Forks = {0}
   Nows = {4}
   ScheduleEpochs = {2}
-  Members = {1, 2, 3}
+  Members = {1, 2}
   IndexSets = {{0}, {1, 5}}
   Sizes = {8}
   SubnetCounts = {4}
@@ -14,6 +15,8 @@ CONSTANTS
   HVals = {0, 1}
   HMod = 2
   MaxSched = 1
+  FaultKinds = {"sel", "root", "cp", "selerr", "rooterr", "cperr"}
+  Deviation = "none"
   MaxFired = 1
 INVARIANTS TypeOK EverySlotOfWindow OnlySlotsOfWindow JobOrder SignedOverObtainedRoot MembersIndependent AggregatorRuleExact
 CHECK_DEADLOCK FALSE
